@@ -461,9 +461,13 @@ def _set_attrpath_value(
     )
     current.values.append(new_binding)
     if target_set.attrpath_order:
-        target_set.attrpath_order.append(
-            _AttrpathEntry(segments=full_segments, binding=new_binding)
-        )
+        entry = _AttrpathEntry(segments=full_segments, binding=new_binding)
+        last_after = getattr(target_set.attrpath_order[-1], "after", None)
+        if last_after and last_after[-1] is empty_line:
+            # The blank line in front of the closing brace stays there.
+            last_after.pop()
+            entry.after = [empty_line]
+        target_set.attrpath_order.append(entry)
 
 
 def _remove_attrpath_value(target_set: AttributeSet, segments: list[str]) -> None:
